@@ -100,25 +100,37 @@ def vectors(ctx, streams):
         for _ in range(ctx.pick(4, 30)):
             k = rng.randint(3, max(3, n // 3))
             cutsets.append(sorted(rng.sample(range(1, n), min(k, n - 1))))
-        # the piaware variant of the Beast reader shares the framing code; it takes a logarithm of the signal-level byte, so it
-        # is driven only with streams whose signal bytes are non-zero (a zero byte raises ValueError there - outside the
-        # listed properties, noted in DESIGN.md 9.5)
-        rssi_ok = kind == "beast" and all(len(fr["body"]) > 6 and fr["body"][6] != 0 for fr in frs)
+        # the piaware variant of the Beast reader ("its rssi twin" in the property's anchors) shares the framing code and is
+        # driven with the same streams - the signal-level byte is free like every other payload byte, 0 included
+        rssi_ok = kind == "beast"
         for k, cuts in enumerate(cutsets):
             v = {"fn": "stream.run", "kind": kind, "frs": frs, "cuts": list(cuts)}
             if rssi_ok and k % 5 == 0:
                 v["reader"] = "rssi"
             V.append(v)
+            # the same delivery through the real receive loop TcpClient.run(), with the link going idle (receive time-out) at the
+            # piece boundaries: every single cut with one and with two time-outs at the cut, the 1-byte pieces with a time-out
+            # after each, a sample of the rest with time-outs drawn at random
+            if len(cuts) == 1:
+                V.append(dict(v, reader="loop", idle=[0, 1 + k % 2, k % 3 == 0 and 1 or 0]))
+            elif len(cuts) == n - 1:
+                V.append(dict(v, reader="loop", idle=[1] * (n + 1)))
+                V.append(dict(v, reader="loop", idle=[]))
+            elif k % 4 == 2:
+                V.append(dict(v, reader="loop", idle=[rng.choice([0, 0, 1, 2]) for _ in range(len(cuts) + 2)]))
     for _ in range(ctx.pick(300, 20000)):
         kind = rng.choice(["beast", "beast", "raw", "skysense"])
         frs = random_stream(rng, kind)
         n = wire_len(kind, frs)
-        rssi_ok = kind == "beast" and all(len(fr["body"]) > 6 and fr["body"][6] != 0 for fr in frs)
+        rssi_ok = kind == "beast"
         for j in range(3):
             k = rng.randint(0, min(n - 1, 12))
             v = {"fn": "stream.run", "kind": kind, "frs": frs, "cuts": sorted(rng.sample(range(1, n), k))}
             if rssi_ok and j == 1:
                 v["reader"] = "rssi"
+            elif j == 2:
+                v["reader"] = "loop"
+                v["idle"] = [rng.choice([0, 0, 1, 2]) for _ in range(k + 2)]
             V.append(v)
         V.append({"fn": "stream.run", "kind": kind, "frs": frs, "cuts": list(range(1, n))})
     # NetSource: batches of handed-over messages
@@ -134,6 +146,20 @@ def vectors(ctx, streams):
         if len(V) % 3 == 0:
             # the RTL-SDR source carries its own copy of the forwarding rule (outside C16's statement: drift only)
             V.append({"fn": "net.run", "batches": batches, "src": "rtl", "lower": rng.choice([0, 1, 2])})
+    # long one-sided stretches: NetSource only sends once it holds more than one ADS-B message, so Comm-B replies (or anything
+    # else) pile up in its local buffers for as long as no second squitter arrives - thousands of messages over many reads.
+    # Whatever the size, everything handed over must come out once, in order (sizes: powers of two and their neighbourhoods)
+    sizes = [700, 1500, 2100, 4200] if ctx.quick else [700, 1500, 2100, 4200, 8300, 16500, 33000, 66000]
+    for j, total in enumerate(sizes):
+        batches = [[gen.rand_frame_df(rng, 17)] if j % 2 == 0 else []]
+        left = total + rng.randint(0, 99)
+        while left > 0:
+            m = min(left, rng.choice([1, 40, 130, 170, 290]))
+            batches.append([gen.rand_frame_df(rng, rng.choice([20, 21, 20, 21, 20, 21, 4, 11, 16])) for _ in range(m)])
+            left -= m
+        batches.append([gen.rand_frame_df(rng, 17), gen.rand_frame_df(rng, 18)])
+        batches.append([gen.rand_frame_df(rng, 20), gen.rand_frame_df(rng, 17), gen.rand_frame_df(rng, 17)])
+        V.append({"fn": "net.run", "batches": batches, "lower": j % 3})
     return V
 
 
@@ -144,10 +170,10 @@ def to_trace(ev):
         if e["fn"] == "stream.run":
             lines.append({"ev": "start", "run": e["id"], "kind": e["kind"], "frs": e["frs"]})
             if r["t"] != "steps":
-                lines.append({"ev": "step", "run": e["id"], "n": 0, "out": [[88]]})      # exception: forces a rejection
+                lines.append({"ev": "step", "run": e["id"], "n": 0, "out": [], "x": 1})   # an exception escaped the reader
                 continue
             for s in r["v"]:
-                lines.append({"ev": "step", "run": e["id"], "n": s["n"], "out": s["out"]})
+                lines.append({"ev": "step", "run": e["id"], "n": s["n"], "out": s["out"], "x": 0})
         else:
             msgs = [m for b in e["batches"] for m in b]
             if r["t"] != "net":
